@@ -145,6 +145,8 @@ C01_BindTarget == \A i \in Dec : BindAny(i) => D[i].n \in Nodes
 (***************************************************************************)
 (* C02 - shared GPU devices                                                *)
 (***************************************************************************)
+\* the newest decision about pod p that reached the cache (successful bind, nomination or successful eviction)
+LastRelC02(p) == LET xs == {x \in Dec : D[x].p = p /\ (BindOK(x) \/ Piped(x) \/ EvictOK(x))} IN IF xs = {} THEN 0 ELSE Max(xs)
 C02_GroupFits == \A n \in Nodes : BoundNow(n) # {} => \A g \in GroupsInUse(n) : GroupMem(n, g) <= N(n).gpuMem
 C02_Exclusive == \A n \in Nodes : BoundNow(n) # {} => DevicesUsed(n) <= N(n).gpus
 \* N fractional devices => N pairwise distinct groups; non-sharing pods get none
@@ -154,6 +156,21 @@ C02_Distinct ==
      /\ Cardinality(SeqToSet(D[i].groups)) = P(D[i].p).devs
 \* a portion never exceeds a device
 C02_PortionFits == \A i \in Dec : (BindOK(i) /\ IsSharing(D[i].p)) => MemPerDev(D[i].p, D[i].n) <= N(D[i].n).gpuMem
+\* nominations too must fit what will be there once the leavers are gone: at the end of a cycle, on every node, the pods
+\* that stay (occupants that are neither terminating nor evicted in this cycle), the binds and the nominations whose
+\* pod was not displaced again later in the cycle need no more devices than the node has, and no GPU group holds more
+\* than a device's memory
+StaysOn(n) == {p \in Occupants(n) : S[p].st # "terminating" /\ p \notin EvictedNow}
+FinalPlacements(n) == {i \in Dec : (BindOK(i) \/ Piped(i)) /\ D[i].n = n /\ LastRelC02(D[i].p) = i}
+GroupsEnd(n) == UNION {SeqToSet(S[p].groups) : p \in {x \in StaysOn(n) : IsSharing(x)}} \cup UNION {SeqToSet(D[i].groups) : i \in FinalPlacements(n)}
+DevicesEnd(n) == Sum(StaysOn(n), Whole) + Sum(FinalPlacements(n), LAMBDA i : Whole(D[i].p)) + Cardinality(GroupsEnd(n))
+GroupMemEnd(n, g) ==
+    Sum({p \in StaysOn(n) : IsSharing(p) /\ g \in SeqToSet(S[p].groups)}, LAMBDA p : MemPerDev(p, n))
+  + Sum({i \in FinalPlacements(n) : g \in SeqToSet(D[i].groups)}, LAMBDA i : MemPerDev(D[i].p, n))
+C02_NominationFits ==
+  (action = "end" /\ ~failed) => \A n \in Nodes : FinalPlacements(n) # {} =>
+     /\ DevicesEnd(n) <= N(n).gpus
+     /\ \A g \in GroupsEnd(n) : GroupMemEnd(n, g) <= N(n).gpuMem
 C02_NextSnapshot ==
   (cyc > 1 /\ D = <<>>) => \A n \in Nodes : \A g \in GroupsInUse(n) : GroupMem(n, g) <= N(n).gpuMem
 
